@@ -111,8 +111,10 @@ def run(ctx):
     quick = ctx.tier == "quick"
     rngs = [random.Random(606), ctx.rng]
     nbase = (120, 60) if quick else (1200, 1200)
-    for rng, n in zip(rngs, nbase):
-        cases = [relgen.make_case(rng, **SAFE) for _ in range(n)]
+    for det, (rng, n) in zip((True, False), zip(rngs, nbase)):
+        kinds = ["select", "derive", "filter", "sort", "take", "aggregate", "group_agg", "group_take", "join", "append", "derive",
+                 "filter", "sort", "take", "window", "window"]
+        cases = [relgen.make_case(rng, kinds=kinds, **SAFE) for _ in range(n)]
         base = relcheck.run_cases(cases, "sql.sqlite")
         reqs, meta = [], []
         for c, r in zip(cases, base):
@@ -133,7 +135,7 @@ def run(ctx):
                 if "panic" in a:
                     fid = relcheck.classify(type("X", (), {"prql": prql, "columns": c.columns})(), {"status": "panic", "detail": a["panic"], "sql": ""})
                 ctx.oracle_failure(fid, f"{kind}: the rewritten program is rejected ({reason}) although the base program compiles",
-                                   {"kind": kind, "base": c.prql, "rewritten": prql, "answer": a})
+                                   {"kind": kind, "base": c.prql, "rewritten": prql, "answer": a}, det_key=(prql,) if det else None)
                 continue
             names, rows, err = relgen.run_sqlite(c.schema_list, c.db, a["sql"])
             ctx.case((prql, str(c.db)), nontrivial=bool(r.get("rows")))
@@ -141,7 +143,7 @@ def run(ctx):
                 r2 = {"status": "sqlite-error", "detail": err, "sql": a["sql"]}
                 fid = relcheck.classify(type("X", (), {"prql": prql, "columns": c.columns})(), r2)
                 ctx.oracle_failure(fid, f"{kind}: rewritten program fails on SQLite: {err}",
-                                   {"kind": kind, "base": c.prql, "rewritten": prql, "sql": a["sql"], "db": c.db})
+                                   {"kind": kind, "base": c.prql, "rewritten": prql, "sql": a["sql"], "db": c.db}, det_key=(prql, c.db) if det else None)
                 continue
             mode = r.get("mode")
             if mode == "ambiguous":
@@ -165,7 +167,8 @@ def run(ctx):
                 fid = relcheck.classify(type("X", (), {"prql": prql, "columns": c.columns})(), r2)
                 ctx.oracle_failure(fid, f"{kind}: result differs from the base program's",
                                    {"kind": kind, "base": c.prql, "rewritten": prql, "base_sql": r["sql"], "sql": a["sql"], "db": c.db,
-                                    "schema": c.schema_list, "base_rows": r["rows"], "rows": rows, "compared_as": mode})
+                                    "schema": c.schema_list, "base_rows": r["rows"], "rows": rows, "compared_as": mode},
+                                   det_key=(prql, c.db) if det else None)
             elif len(ctx.samples) < 5 and rows:
                 ctx.sample({"kind": kind, "rewritten": prql.split("}\n", 1)[-1], "rows": rows[:2]})
     ctx.obligation("oracle: every rewrite leaves the executed result unchanged (all unlisted cases)", not ctx.violations, "")
